@@ -898,6 +898,80 @@ impl QueryEngine {
     }
 }
 
+#[cfg(litep2p_verif)]
+impl QueryEngine {
+    /// Order-independent description of every active query (verification seam): query id, kind,
+    /// peer lists `[pending, queried, candidates (by distance), responses (by distance)]` and
+    /// counters.
+    #[allow(clippy::type_complexity)]
+    pub fn verif_snapshot(&self) -> Vec<(usize, &'static str, Vec<Vec<PeerId>>, Vec<usize>)> {
+        fn sorted(peers: impl Iterator<Item = PeerId>) -> Vec<PeerId> {
+            let mut peers: Vec<_> = peers.collect();
+            peers.sort();
+            peers
+        }
+        fn find_node<T: Clone + Into<Vec<u8>>>(
+            kind: &'static str,
+            context: &FindNodeContext<T>,
+        ) -> (&'static str, Vec<Vec<PeerId>>, Vec<usize>) {
+            (
+                kind,
+                vec![
+                    sorted(context.pending.keys().copied()),
+                    sorted(context.queried.iter().copied()),
+                    context.candidates.values().map(|p| p.peer).collect(),
+                    context.responses.values().map(|p| p.peer).collect(),
+                ],
+                vec![context.verif_pending_responses()],
+            )
+        }
+
+        let mut out: Vec<_> = self
+            .queries
+            .iter()
+            .map(|(id, query)| {
+                let (kind, lists, counters) = match query {
+                    QueryType::FindNode { context } => find_node("find-node", context),
+                    QueryType::PutRecord { context, .. } => find_node("put-record", context),
+                    QueryType::AddProvider { context, .. } => find_node("add-provider", context),
+                    QueryType::PutRecordToPeers { context, .. } => (
+                        "put-record-to-peers",
+                        vec![context.peers_to_report.iter().map(|p| p.peer).collect()],
+                        vec![],
+                    ),
+                    QueryType::GetRecord { context } => (
+                        "get-record",
+                        vec![
+                            sorted(context.pending.keys().copied()),
+                            sorted(context.queried.iter().copied()),
+                            context.candidates.values().map(|p| p.peer).collect(),
+                            context.records.iter().map(|r| r.peer).collect(),
+                        ],
+                        vec![context.found_records],
+                    ),
+                    QueryType::GetProviders { context } => (
+                        "get-providers",
+                        vec![
+                            sorted(context.pending.keys().copied()),
+                            sorted(context.queried.iter().copied()),
+                            context.candidates.values().map(|p| p.peer).collect(),
+                            context.found_providers.iter().map(|p| p.peer).collect(),
+                        ],
+                        vec![],
+                    ),
+                    QueryType::PutRecordToFoundNodes { context } =>
+                        ("put-record-to-found-nodes", vec![], vec![context.is_finished() as usize, context.is_succeded() as usize]),
+                    QueryType::AddProviderToFoundNodes { context } =>
+                        ("add-provider-to-found-nodes", vec![], vec![context.is_finished() as usize, context.is_succeded() as usize]),
+                };
+                (id.0, kind, lists, counters)
+            })
+            .collect();
+        out.sort_by_key(|entry| entry.0);
+        out
+    }
+}
+
 #[cfg(test)]
 mod tests {
     use multihash::Multihash;
